@@ -66,47 +66,47 @@ type Obligation struct {
 	Text      string
 	Pos       string
 	// result
-	Status  string // proved | failed | unknown | error (for ExpectSat: proved means sat)
-	Solver  string
-	TimeS   float64
-	Model   string
-	SMTSize int
-	Detail  string
-	Inputs  []string // names of input constants for get-value
+	Status    string // proved | failed | unknown | error (for ExpectSat: proved means sat)
+	Solver    string
+	TimeS     float64
+	Model     string
+	SMTSize   int
+	Detail    string
+	Inputs    []string // names of input constants for get-value
 	Known     *KnownFinding
 	KnownTerm Term
 }
 
 // VC accumulates the verification conditions of one function instance.
 type VC struct {
-	eng       *Engine
-	Name      string // display name of the instance
-	contract  *Contract
-	bv        bool
-	mixed     bool
-	wraps     bool
-	strSMT    bool
-	script    []string
-	dtOrder   []string          // datatype declarations in dependency order
-	dtDone    map[string]string // go type string -> sort name
-	structOf  map[string]*types.Struct
-	obls      []*Obligation
-	ctr       map[string]int
-	strLits   map[string]Term
-	assumed   map[string]bool // assumption notes
-	compSort  map[string]string
-	compDecl  map[string]bool
-	subst     map[string]types.Type // type parameter name -> type
-	inputs    []string
-	specDecl  map[string]bool
-	preamble  []string // spec function definitions (after datatypes)
-	panicOK   func(st *State) Term // condition under which a panic is allowed (entry-state expr)
-	onPanic   func(st *State, what string)
-	alloc0    Term
-	entry     *State
-	oblCount  map[string]int
-	uf        map[string]bool
-	errs      []string
+	eng        *Engine
+	Name       string // display name of the instance
+	contract   *Contract
+	bv         bool
+	mixed      bool
+	wraps      bool
+	strSMT     bool
+	script     []string
+	dtOrder    []string          // datatype declarations in dependency order
+	dtDone     map[string]string // go type string -> sort name
+	structOf   map[string]*types.Struct
+	obls       []*Obligation
+	ctr        map[string]int
+	strLits    map[string]Term
+	assumed    map[string]bool // assumption notes
+	compSort   map[string]string
+	compDecl   map[string]bool
+	subst      map[string]types.Type // type parameter name -> type
+	inputs     []string
+	specDecl   map[string]bool
+	preamble   []string             // spec function definitions (after datatypes)
+	panicOK    func(st *State) Term // condition under which a panic is allowed (entry-state expr)
+	onPanic    func(st *State, what string)
+	alloc0     Term
+	entry      *State
+	oblCount   map[string]int
+	uf         map[string]bool
+	errs       []string
 	tags       map[string]int
 	recSpecMap map[string]*recSpec
 	retTerms   []Term
@@ -114,6 +114,7 @@ type VC struct {
 	recDecl    map[string]string // define-fun-rec line -> declare-fun line
 	constLens  map[string]int64  // slice terms with a literal length (varargs arrays)
 	boxed      map[string]Val    // interface term -> boxed value
+	splitCases []splitCase       // the case of each `split` clause this VC covers
 	entryVars  map[string]Val    // parameters of the function under verification (entry values)
 	noInst     bool              // render queries without engine-side quantifier instances
 	bridged    map[string]bool   // bit-vector constants that came from an integer (int2bv)
@@ -493,10 +494,10 @@ func (vc *VC) mkStruct(t types.Type, fields []Term) Term {
 }
 
 func mkSlice(arr, off, ln, cp Term) Term { return app(SSlice, "mk-slice", arr, off, ln, cp) }
-func sArr(s Term) Term                  { return app(SInt, "s.arr", s) }
-func sOff(s Term) Term                  { return app(SInt, "s.off", s) }
-func sLen(s Term) Term                  { return app(SInt, "s.len", s) }
-func sCap(s Term) Term                  { return app(SInt, "s.cap", s) }
+func sArr(s Term) Term                   { return app(SInt, "s.arr", s) }
+func sOff(s Term) Term                   { return app(SInt, "s.off", s) }
+func sLen(s Term) Term                   { return app(SInt, "s.len", s) }
+func sCap(s Term) Term                   { return app(SInt, "s.cap", s) }
 
 var nilSlice = mkSlice(intLit(0), intLit(0), intLit(0), intLit(0))
 
